@@ -23,7 +23,9 @@ RULE = ('family = one store (new / from_dict / from_list with immutable_warranty
         'through copy(), delivered by a prefetch worker thread (thread simulator); '
         'hold; mutate a held example deeply (set / delete / append / clear / in-place '
         'array write); mutate the original container after construction (pickle and wu '
-        'only, the property exempts copy); re-read. Oracle: after every step every '
+        'only, the property exempts copy); re-read; stores whose examples are tuples with '
+        'mutable content; in 15% of the families two client threads read and mutate '
+        'concurrently under the thread scheduler. Oracle: after every step every '
         'read equals the pristine snapshot taken at construction. Non-trivial = a '
         'mutation happened before a later read; distinct = distinct (store, payload, '
         'history).')
